@@ -715,7 +715,7 @@ Lemma step_refines : forall sort s o, sort_ok sort -> store_ok s -> op_ok o ->
   (e = 0 \/ e = E_NXKEY \/ e = E_NXVAL) /\
   (e <> 0 -> s' = s).
 Proof.
-  intros sort s o HS Hs Ho. destruct o as [k v|k v|adds dels|]; cbn [model_step spec_step].
+  intros sort s o HS Hs Ho. destruct o as [k v|k v|adds dels| |]; cbn [model_step spec_step].
   - destruct (add_refines s k v Hs Ho) as [A B]. cbn [fst snd].
     refine (conj A (conj B (conj eq_refl (conj (or_introl eq_refl) _)))). intro X; contradiction.
   - pose proof (del_refines s k v Hs) as P. destruct (del s k v) as [s'|e]; cbn [fst snd].
@@ -733,7 +733,18 @@ Proof.
       refine (conj Hs (conj (fun k' => eq_refl) (conj eq_refl (conj (or_intror (or_intror eq_refl)) (fun _ => eq_refl))))).
   - cbn [fst snd].
     refine (conj Hs (conj (fun k' => eq_refl) (conj eq_refl (conj (or_introl eq_refl) (fun _ => eq_refl))))).
+  - cbn [fst snd].
+    refine (conj Hs (conj (fun k' => eq_refl) (conj eq_refl (conj (or_introl eq_refl) (fun _ => eq_refl))))).
 Qed.
+
+(* a session boundary (Close, open the same directory again) and Backup + Restore are the
+   identity on store and map.  That is true by definition of the model: what the boundary does to
+   the bytes on disk (flush, tombstones meeting older versions, the backup engine) is RocksDB's
+   and is covered only by the differential run, which reads every key after every boundary. *)
+Lemma boundary_is_identity : forall sort s ord m,
+  model_step sort s OReopen = (s, 0) /\ spec_step ord m OReopen = (m, false) /\
+  model_step sort s OBackupRestore = (s, 0) /\ spec_step ord m OBackupRestore = (m, false).
+Proof. intros. repeat split. Qed.
 
 Lemma model_run_cons : forall sort s o r,
   model_run sort s (o :: r) =
